@@ -22,9 +22,11 @@ pub mod c18;
 pub mod c20;
 pub mod c21;
 pub mod c22;
+pub mod c23;
 pub mod c24;
 pub mod c25;
 pub mod c26;
+pub mod c27;
 pub mod c28;
 pub mod c19;
 pub mod c29;
@@ -64,6 +66,7 @@ pub fn all() -> Vec<CheckDef> {
         CheckDef { id: "C20", shards: one, run: c20::run, replay: Some(c20::replay) },
         CheckDef { id: "C21", shards: one, run: c21::run, replay: Some(c21::replay) },
         CheckDef { id: "C22", shards: one, run: c22::run, replay: Some(c22::replay) },
+        CheckDef { id: "C23", shards: one, run: c23::run, replay: Some(c23::replay) },
         CheckDef { id: "C24", shards: one, run: c24::run, replay: Some(c24::replay) },
         CheckDef { id: "C25", shards: one, run: c25::run, replay: Some(c25::replay) },
         CheckDef { id: "C26", shards: one, run: c26::run, replay: Some(c26::replay) },
@@ -80,6 +83,7 @@ pub fn all() -> Vec<CheckDef> {
         CheckDef { id: "C35", shards: one, run: c35::run, replay: Some(c35::replay) },
         CheckDef { id: "C38", shards: one, run: c38::run, replay: Some(c38::replay) },
         CheckDef { id: "C41", shards: one, run: c41::run, replay: Some(c41::replay) },
+        CheckDef { id: "C27", shards: one, run: c27::run, replay: Some(c27::replay) },
         CheckDef { id: "C28", shards: one, run: c28::run, replay: Some(c28::replay) },
     ]
 }
@@ -87,6 +91,7 @@ pub fn all() -> Vec<CheckDef> {
 pub fn aux(args: &[String]) -> i32 {
     match args.first().map(|s| s.as_str()) {
         Some("c26-expand") => c26::aux_expand(&args[1..]),
+        Some("c27-worker") => c27::aux_worker(&args[1..]),
         Some("fake-rsync") => crate::etree::fake_rsync(&args[1..]),
         _ => { eprintln!("unknown aux command"); 2 }
     }
